@@ -1,4 +1,8 @@
 import PyYetiVerif.Props.C16
+import PyYetiVerif.Props.C16Full
+import PyYetiVerif.Props.C16FullRoutine
+import PyYetiVerif.Props.C16Pipe
+import PyYetiVerif.Props.C16Psd
 #print axioms PyYetiVerif.C16.ext_is_fold_max
 #print axioms PyYetiVerif.C16.spec_determines_result
 #print axioms PyYetiVerif.C16.ext_values_order_independent
@@ -14,3 +18,23 @@ import PyYetiVerif.Props.C16
 #print axioms PyYetiVerif.C16.uf_unit
 #print axioms PyYetiVerif.C16.uf_scaling
 #print axioms PyYetiVerif.C16.cache_transparent
+#print axioms PyYetiVerif.C16.uf_split_full
+#print axioms PyYetiVerif.C16.uf_scaling_full
+#print axioms PyYetiVerif.C16.uf_unit_full
+#print axioms PyYetiVerif.C16.cache_transparent_full
+#print axioms PyYetiVerif.C16.cache_transparent_blocks
+#print axioms PyYetiVerif.C16.frf_recovery_is_abs_extreme
+#print axioms PyYetiVerif.C16.merge_of_disjoint_case_sets_is_one_pass
+#print axioms PyYetiVerif.C16.merge_refuses_duplicates
+#print axioms PyYetiVerif.C16.store_refuses_duplicates
+#print axioms PyYetiVerif.C16.calc_ext_is_fold_max
+#print axioms PyYetiVerif.C16.psd_recovery_is_sum_over_forces
+#print axioms PyYetiVerif.C16.psd_row_is_sum_over_forces
+#print axioms PyYetiVerif.C16.rms_is_trapz_sqrt
+#print axioms PyYetiVerif.C16.peak_is_factor_times_rms
+#print axioms PyYetiVerif.C16.meansquare_is_linear
+#print axioms PyYetiVerif.C16.psd_recovery_is_peak_extreme
+#print axioms PyYetiVerif.C16.uf_split_full_routine
+#print axioms PyYetiVerif.C16.stat_ext_sanity
+#print axioms PyYetiVerif.C16.uf_scaling_full_routine
+#print axioms PyYetiVerif.C16.uf_unit_full_routine
